@@ -153,7 +153,7 @@ class C04(Check):
             self.absorb(exp, need_paths=2)
         self.bounds['DB level']['other time steps'] = '2700 s, 7200 s (G=3)' if self.tier == 'quick' else '1200, 2700, 7200 s (G=4)'
         # a stretch boundary between two neighbouring instants that both carry a level (see C03 / dbstate.labels_of)
-        breaks = [1, 2] if self.tier == 'quick' else list(range(G))
+        breaks = [1, 2] if self.tier == "quick" else list(range(1, G - 1))
         self.bounds['DB level']['stretch boundaries without a NULL instant'] = 'one, after instant %s' % breaks
         for b in breaks:
             exp = symx.explore(classify_db.harness, {'G': G, 'step_s': 1800, 'props': ('C04',), 'seed': self.seed,
